@@ -150,12 +150,23 @@ func isAbort(r any) bool { return rt.IsAbort(r) }
 // safeParse is ParseVector for harness purposes (initial values of cells).
 func safeParse(a verAPI, s string) (p unsafe.Pointer, err error) {
 	rt.CalmReset()
-	defer func() {
-		if r := recover(); r != nil {
-			p, err = nil, fmt.Errorf("panic: %v", r)
-		}
-	}()
-	return a.Parse(s)
+	do := func() {
+		defer func() {
+			if r := recover(); r != nil {
+				if rt.IsAbort(r) {
+					panic(r)
+				}
+				p, err = nil, fmt.Errorf("panic: %v", r)
+			}
+		}()
+		p, err = a.Parse(s)
+	}
+	if libSpawns {
+		rt.RunCalm(do)
+	} else {
+		do()
+	}
+	return p, err
 }
 
 func strHash(s string) uint64 {
